@@ -204,3 +204,19 @@ CHECKS["C09"] = {
     "level_note": "Trusted: the dialect lexers/decoders used for transliteration and SQLite as the common executor (MySQL/Postgres engines are not available; engine-specific semantics beyond syntax are out of reach).",
     "min_nontrivial": 200,
 }
+
+CHECKS["C08"] = {
+    "parts": BASE,
+    "level": "exploration",
+    "technique": "runtime monitor: strict recursive-descent grammar models of MySQL 8.0 and PostgreSQL 15 DML (vcore/stmt.rs + px.rs) parse the rendered statement and an independent reference rendering of the same builder calls; the clause trees must be equal; grammar calibrated on the maintainers' 289 expected SQL strings",
+    "rule": "statements from the generator with each dialect's supported feature set (select list with OVER/AS, FROM with aliases/subqueries, joins incl. MySQL CROSS JOIN, WHERE, GROUP BY, HAVING, named WINDOW, parenthesised set operations, ORDER BY with NULLS (Postgres) or the `expr IS NULL` emulation (MySQL), LIMIT/OFFSET, lock clauses, index hints / TABLESAMPLE / DISTINCT ON, plain/recursive CTEs with SEARCH/CYCLE/MATERIALIZED, INSERT/REPLACE with VALUES/SELECT/default rows, ON DUPLICATE KEY UPDATE vs ON CONFLICT, RETURNING, UPDATE..JOIN..ON vs UPDATE..FROM, DELETE/UPDATE with ORDER BY/LIMIT on MySQL), inline and parameterised; non-trivial = >= 3 clause kinds; distinct = distinct (inline text, dialect)",
+    "assumptions": [
+        "the grammar models (DESIGN Appendix F) are the trusted base: each clause at most once, in grammar position; dialect-specific constructs are rejected in the other dialect (RETURNING / ON CONFLICT / NULLS FIRST / DISTINCT ON / TABLESAMPLE / ILIKE in MySQL; ON DUPLICATE KEY / ROW(..) / index hints / UPDATE..JOIN in Postgres)",
+        "calibration: the model accepts 288 of the 289 statements asserted in /repo/tests/*/query.rs (used as data); the one reviewed rejection is Postgres UPDATE..ORDER BY..LIMIT",
+        "Postgres CROSS JOIN is outside the generated set (listed finding, pinned probe)",
+    ],
+    "design_ref": "DESIGN.md §5 C08, Appendix F",
+    "level_text": "Completeness, uniqueness and order of clauses are decided by parsing: the rendered text must be derivable by the dialect grammar and its clause tree must equal that of an independently written rendering of the same spec, so a dropped, duplicated, misplaced or re-ordered clause or item shows as a tree difference or a parse failure.",
+    "level_note": "Trusted: the MySQL/Postgres grammar models and the reference renderer's per-dialect forms (no such engines in the sandbox).",
+    "min_nontrivial": 300,
+}
